@@ -51,21 +51,21 @@ def ctor(op):
     if name == 'ghz':
         return pc.ghz_state(N)
     if name == 'mixed':
-        return pc.maximally_mixed_state(N)
+        return pc.maximally_mixed_state(B.int_form(N))
     if name == 'random_bit':
         rng.seed_all(op['seed'])
         return pc.random_bit_state(N)
     if name == 'random_pauli':
         rng.seed_all(op['seed'])
-        return pc.random_pauli_state(N, op['r'])
+        return pc.random_pauli_state(N, B.int_form(op['r']))
     if name == 'random_clifford':
         rng.seed_all(op['seed'])
-        return pc.random_clifford_state(N, op['r'])
+        return pc.random_clifford_state(N, B.int_form(op['r']))
     if name == 'stabilizer_state':
         L, K = ref.parse_list(op['stabs'])
         return pc.stabilizer_state(B.np_list(L, K))
     if name == 'to_state':
-        return B.np_map(C.dec_clifford(op['rows'])).to_state(op['r'])
+        return B.np_map(C.dec_clifford(op['rows'])).to_state(B.int_form(op['r']))
     if name == 'raw':
         S, _ = C.dec_state('np', {'rows': op['rows'], 'r': op['r']})
         return S
@@ -83,7 +83,7 @@ def apply_op(S, op):
         if len(q) == N and not op.get('usemask', True):
             S.rotate_by(B.np_pauli(gl, gk))
         else:
-            S.rotate_by(B.np_pauli(gl, gk), B.NP.mask(q, N))
+            S.rotate_by(B.np_pauli(gl, gk), B.NP.mask_arg(q, N))
         return S
     if kind == 'transform':
         M = B.np_map(C.dec_clifford(op['rows']))
@@ -91,7 +91,7 @@ def apply_op(S, op):
         if len(q) == N and not op.get('usemask', True):
             S.transform_by(M)
         else:
-            S.transform_by(M, B.NP.mask(q, N))
+            S.transform_by(M, B.NP.mask_arg(q, N))
         return S
     if kind == 'gate':
         g = C.gate_lib(op['gate'])
